@@ -130,6 +130,7 @@ let () =
         let verdict =
           if f0 = "ERR" || final = "ERR" then "fail:sanitiser-returned-error"
           else if not (List.for_all urlinfo_sound infos) then "fail:url-parse-result-shows-a-browser-another-scheme"
+          else if not (h_tok_style_check its t2) then "fail:tokenizer-reads-back-a-style-value-the-rewriter-did-not-write"
           else if not (List.for_all otoken_inert (bm_tokens t2)) then "fail:model-emits-a-token-that-is-not-inert"
           else match html_verdict rep with
             | "ok" -> tags_verdict tags
